@@ -36,6 +36,7 @@ pub const MULTIPLE_START_RULES: &str = "E031";
 pub const ELISION_IN_START_RULE: &str = "E032";
 pub const REDEFINE_AS_PART: &str = "E033";
 pub const START_AS_PART: &str = "E034";
+pub const CROSSING_CLOSE_NODE: &str = "E035";
 
 pub const UNUSED_RULE: &str = "W001";
 pub const UNUSED_TOKEN: &str = "W002";
@@ -72,6 +73,7 @@ pub trait LanguageErrors {
     fn redefine_node_marker(span: &Span, old_span: &Span) -> Self;
     fn undefined_create_node(span: &Span) -> Self;
     fn invalid_create_node(span: &Span, open_span: &Span) -> Self;
+    fn crossing_create_node(span: &Span, open_span: &Span) -> Self;
     fn create_rule_node_left_rec(span: &Span) -> Self;
     fn unused_node_marker(span: &Span) -> Self;
     fn redundant_elision(span: &Span) -> Self;
@@ -323,6 +325,17 @@ impl LanguageErrors for Diagnostic {
                 Label::primary((), span.clone()),
                 Label::secondary((), open_span.clone()).with_message("node marked here"),
             ])
+    }
+
+    fn crossing_create_node(span: &Span, open_span: &Span) -> Self {
+        Diagnostic::error()
+            .with_code(CROSSING_CLOSE_NODE)
+            .with_message("node creation crosses a previously created node")
+            .with_labels(vec![
+                Label::primary((), span.clone()),
+                Label::secondary((), open_span.clone()).with_message("node marked here"),
+            ])
+            .with_note("note: a node marker is consumed by a node creation for an earlier marker")
     }
 
     fn create_rule_node_left_rec(span: &Span) -> Self {
